@@ -94,6 +94,9 @@ func (c *trCtx) assignedIn2(through bool, nodes ...ast.Node) []types.Object {
 			continue
 		}
 		ast.Inspect(n, func(n ast.Node) bool {
+			for _, o := range c.ambientUsed(n, true) {
+				assigned[o] = true // color.NoColor = e (trans_units_tablerender.go)
+			}
 			switch x := n.(type) {
 			case *ast.Ident:
 				if o := c.info().Defs[x]; o != nil {
@@ -154,6 +157,9 @@ func (c *trCtx) assignedIn2(through bool, nodes ...ast.Node) []types.Object {
 							mark(a)
 						}
 					}
+				}
+				if trIsColorFprintf(c.info(), x) {
+					mark(x.Args[0]) // red.Fprintf(w, …) writes to w (trans_units_tablerender.go)
 				}
 				if a := trWriterVarArg(c.info(), x); a != nil {
 					mark(a) // fmt.Fprintf(w, …) / io.WriteString(w, s) on an io.Writer variable (trans_units_beancount.go)
@@ -229,7 +235,7 @@ func (c *trCtx) calleeOf(x *ast.CallExpr) (*trFunc, ast.Expr) {
 			fobj, _ = c.info().Uses[f.Sel].(*types.Func)
 		}
 	}
-	if fobj == nil {
+	if fobj == nil || c.t.builderCallFromOutside(c.info(), fobj) {
 		return nil, nil
 	}
 	return c.t.funcs[fobj.Origin()], recv
@@ -383,7 +389,7 @@ func (c *trCtx) returnTerm(vals []string, pos token.Pos) trLines {
 	} else if len(vals) > 1 {
 		v = "(" + strings.Join(vals, ", ") + ")"
 	}
-	return c.retRaw(v, pos)
+	return trWrapPre(c.takePre(), c.retRaw(v, pos)) // (the value of a moved writer may be effectful: trans_units_tablerender.go)
 }
 
 // retRaw: leave the function with the (complete) result value v from the current position
@@ -627,6 +633,9 @@ func (c *trCtx) store(lhs ast.Expr, val string, pos token.Pos, k trK) trLines {
 
 // storeTerm: which variable is rebound, and to what, by `lhs = val`
 func (c *trCtx) storeTerm(lhs ast.Expr, val string, pos token.Pos) (name, typ, term string) {
+	if n, ty, tm, ok := c.ambientStore(lhs, val, pos); ok {
+		return n, ty, tm // color.NoColor = e (trans_units_tablerender.go)
+	}
 	switch l := trUnparen(lhs).(type) {
 	case *ast.Ident:
 		if l.Name == "_" {
@@ -769,6 +778,9 @@ func (c *trCtx) assign(x *ast.AssignStmt, k trK) trLines {
 			if tf, recv := c.calleeOf(call); tf != nil && len(tf.mut) > 0 {
 				return c.mutCall(call, tf, recv, x.Lhs, x.Tok == token.DEFINE, k)
 			}
+			if out, ok := c.primResultCall(call, x.Lhs, x.Tok == token.DEFINE, k); ok {
+				return out // err := writer.Write(rec) of a csv.Writer (trans_units_tablerender.go)
+			}
 		}
 		if _, isLit := trUnparen(x.Rhs[0]).(*ast.FuncLit); isLit && x.Tok == token.DEFINE {
 			if id, ok := x.Lhs[0].(*ast.Ident); ok && c.onlyTreeArg(c.info().Defs[id]) {
@@ -858,6 +870,9 @@ func (c *trCtx) assignMulti(x *ast.AssignStmt, k trK) trLines {
 		}
 		if out, ok := c.primResultCall(r, x.Lhs, x.Tok == token.DEFINE, k); ok {
 			return out
+		}
+		if out, ok := c.colorFprintf(r, x.Lhs, x.Tok == token.DEFINE, k); ok {
+			return out // red.Fprintf(w, …) (trans_units_tablerender.go)
 		}
 		if out, ok := c.writerVarCall(r, x.Lhs, x.Tok == token.DEFINE, k); ok {
 			return out // fmt.Fprintf / io.WriteString on an io.Writer variable (trans_units_beancount.go)
